@@ -56,7 +56,12 @@ def gen_spec(rng, allow_slow=True, depth=0):
     fam = rng.weighted(list(FAMILIES), list(FAMILIES.values()))
     if depth > 0 and fam in ("dist", "flow"):
         fam = "coupling"
-    return _gen(fam, rng, allow_slow, depth)
+    spec = _gen(fam, rng, allow_slow, depth)
+    if depth == 0:
+        # "trained weights": a seeded perturbation of every floating-point parameter after construction, so that
+        # biases, temperatures, affine parameters etc. are not at their (often zero / identity) initial values
+        spec["perturb"] = rng.pick([0.0, 0.0, 0.2])
+    return spec
 
 
 def _net(rng):
@@ -159,6 +164,13 @@ def build(spec, seed):
     core.boot()
     core.seed_global(seed)
     e = _build(spec)
+    mag = float(spec.get("perturb", 0.0) or 0.0)
+    if mag:
+        torch = core.boot()
+        with torch.no_grad():
+            for name, p in sorted(e.obj.named_parameters()):
+                if p.is_floating_point():
+                    p.add_(mag * torch.randn(p.shape, dtype=p.dtype))
     return e
 
 
